@@ -26,7 +26,26 @@ type mgrDialer struct {
 	conns   []*grpc.ClientConn
 	addrs   []string
 	failFor int // the next failFor Dial calls fail
+	deadFor int // the next deadFor connections are closed before they are returned: Subscribe on them fails at once
 	calls   int
+}
+
+// mgrCreds is the credentials backend: the next failFor look-ups fail.
+type mgrCreds struct {
+	mu      sync.Mutex
+	failFor int
+	calls   int
+}
+
+func (c *mgrCreds) Lookup(ctx context.Context, key string) (string, error) {
+	c.mu.Lock()
+	defer c.mu.Unlock()
+	c.calls++
+	if c.failFor > 0 {
+		c.failFor--
+		return "", errors.New("scripted credentials failure")
+	}
+	return "secret", nil
 }
 
 func (d *mgrDialer) dial(ctx context.Context, target string, _ ...grpc.DialOption) (*grpc.ClientConn, error) {
@@ -49,6 +68,10 @@ func (d *mgrDialer) dial(ctx context.Context, target string, _ ...grpc.DialOptio
 	}
 	cc.Connect()
 	d.mu.Lock()
+	if d.deadFor > 0 {
+		d.deadFor--
+		cc.Close()
+	}
 	d.conns = append(d.conns, cc)
 	d.addrs = append(d.addrs, target)
 	d.mu.Unlock()
@@ -96,7 +119,8 @@ func (d *mgrDialer) settled(min int) {
 
 // runManager plays the cycles of one manager case.  Ev of kind "mgr":
 // I = distinct next hops, A = Dial calls that fail first, EK = reconnects,
-// ND = the address list repeats its first next hop.
+// ND = the address list repeats its first next hop, CF = credentials look-ups
+// that fail first, SF = connections on which Subscribe fails at once.
 func runManager(ops []Ev, emit func(Line)) {
 	manager.RetryBaseDelay = 2 * time.Millisecond
 	manager.RetryMaxDelay = 5 * time.Millisecond
@@ -105,7 +129,8 @@ func runManager(ops []Ev, emit func(Line)) {
 	if err != nil {
 		panic(err)
 	}
-	m, err := manager.NewManager(manager.Config{ConnectionManager: cm})
+	creds := &mgrCreds{}
+	m, err := manager.NewManager(manager.Config{ConnectionManager: cm, Credentials: creds})
 	if err != nil {
 		panic(err)
 	}
@@ -122,7 +147,11 @@ func runManager(ops []Ev, emit func(Line)) {
 			before := d.made()
 			d.mu.Lock()
 			d.failFor = e.A
+			d.deadFor = e.SF
 			d.mu.Unlock()
+			creds.mu.Lock()
+			creds.failFor = e.CF
+			creds.mu.Unlock()
 			var addrs []string
 			for h := 0; h < e.I; h++ {
 				addrs = append(addrs, fmt.Sprintf("hop-%d-%d:1", k, h))
@@ -132,7 +161,12 @@ func runManager(ops []Ev, emit func(Line)) {
 			}
 			name := fmt.Sprintf("target-%d", k)
 			sr := &gpb.SubscribeRequest{Request: &gpb.SubscribeRequest_Subscribe{Subscribe: &gpb.SubscriptionList{}}}
-			if err := m.Add(name, &tpb.Target{Addresses: addrs}, sr); err != nil {
+			tgt := &tpb.Target{Addresses: addrs}
+			if e.CF > 0 || k%2 == 1 {
+				// a target whose password has to be looked up in the credentials backend
+				tgt.Credentials = &tpb.Credentials{Username: "user", PasswordId: "pw-id"}
+			}
+			if err := m.Add(name, tgt, sr); err != nil {
 				o.Bad, o.Msg = 1, "Add: "+err.Error()
 				return
 			}
